@@ -119,6 +119,14 @@ def c16Obj (args : List String) (impl : String) : String × String :=
     (model, if impl.contains "PANIC" then "false:panic" else if impl == model then "true" else "false:json-roundtrip")
   | _ => ("bad-op", "n/a")
 
+/-- `C16.utxos <list>`: a list of UTXOs through both dialects comes back element for element -/
+def c16List (args : List String) (impl : String) : String × String :=
+  match args with
+  | [l] =>
+    let model := s!"lib={l} node={l}"
+    (model, if impl.contains "PANIC" then "false:panic" else if impl == model then "true" else "false:json-list-roundtrip")
+  | _ => ("bad-op", "n/a")
+
 def showInputOnly (i : Input) : String := showInput i
 
 /-- `C09.input <ext> <hex>`: Input.ReadFrom / ReadFromExtended. impl: `ok n=<k> in=<inputdesc>` | `err n=<k>` -/
